@@ -4,12 +4,16 @@
 -/
 import Emu.Driver.Bt
 import Emu.Driver.Gcs
+import Emu.Driver.Lock
+import Emu.Driver.Conc
 
 open Emu Emu.Driver
 
 structure St where
   bt : Emu.Bt.Server := {}
   gcs : Emu.Gcs.Store := {}
+  lock : LockSt := {}
+  conc : ConcSt := {}
 
 def handle (st : St) (line : String) : St × String :=
   match tokens line with
@@ -27,6 +31,12 @@ def handle (st : St) (line : String) : St × String :=
       let (s', r) := Emu.Gcs.step st.gcs op
       ({ st with gcs := s' }, showGcsResp r)
     | none => (st, "bad-op")
+  | "conc" :: rest =>
+    let (c', bt', gcs', r) := handleConc st.conc st.bt st.gcs rest
+    ({ st with conc := c', bt := bt', gcs := gcs' }, r)
+  | "lock" :: rest =>
+    let (l', r) := handleLock st.lock rest
+    ({ st with lock := l' }, r)
   | _ => (st, "bad-op")
 
 partial def loop (h : IO.FS.Stream) (out : IO.FS.Stream) (st : St) : IO Unit := do
